@@ -97,6 +97,12 @@ func runCLI(t *testing.T, col *ev.Collector) {
 			fixed = append(fixed, CLICase{Ops: []Op{{Kind: "add", V: "30"}, {Kind: "add", V: "60"}, {Kind: "apply"}, {Kind: "add", V: "50"}, {Kind: "apply", Order: order, Via: via}, {Kind: "apply", Order: order, Via: via}}})
 		}
 	}
+	// a first run with a baseline, stated by the flag, by the env, or by the flag against another one in the env
+	for via := 0; via < 3; via++ {
+		for _, dirty := range []bool{false, true} {
+			fixed = append(fixed, CLICase{Dirty: dirty, Ops: []Op{{Kind: "add", V: "30"}, {Kind: "add", V: "60"}, {Kind: "apply", Baseline: "30", Via: via}, {Kind: "apply", Via: via}}})
+		}
+	}
 	for _, c := range fixed {
 		if !ev.Each(col, "cli-fixed-histories", c, check, knownCLI) {
 			return
